@@ -195,7 +195,7 @@ def run(ctx):
         if hf is None:
             ctx.undecided("C03.3", None, "%s: SHA-1 accumulator not found" % cls.name, cls.name)
             continue
-        HF.judge_facts(ctx, "C03.3", cls.name, hf, HF.SPEC_HYBRID, why="the hybrid v1 stream (BEP 52 upgrade path)")
+        HF.judge_facts(ctx, "C03.3", cls.name, hf, HF.SPEC_HYBRID, why="the hybrid v1 stream (BEP 52 upgrade path)", reduced_attrs=True)
         zg = hf.get("v1.zero.guard")
         if zg is None or zg.value == HF.UND:
             ctx.undecided("C03.3", H.piece_fn, "%s: zero-extension guard not found" % cls.name, cls.name + " :: v1.zero.guard")
